@@ -10,8 +10,9 @@ REPO_KWAJ = os.path.join(vlib.REPO, "libmspack", "test", "test_files", "kwajd")
 REPO_CABX = os.path.join(vlib.REPO, "cabextract", "test", "cabs")
 
 class Case:
-    def __init__(self, label, fmt, scn, wellformed=False, expect=None):
+    def __init__(self, label, fmt, scn, wellformed=False, expect=None, all_faults=False):
         self.label, self.fmt, self.scn, self.wellformed, self.expect = label, fmt, scn, wellformed, expect
+        self.all_faults = all_faults          # fault sweep: every call index of the clean run, not a sample
 
 def py_lzss(rng, n, mode):
     """simple LZSS stream (literals and matches) + its plaintext, python reference"""
@@ -184,7 +185,8 @@ def fault_variants(rng, case, clean, per_kind=None):
     for kind in FAULT_KINDS:
         n = clean.calls.get(kind, 0)
         idxs = list(range(n))
-        if per_kind is not None and n > per_kind: idxs = sorted(rng.sample(idxs, per_kind))
+        if getattr(case, "all_faults", False): idxs = idxs[:60]
+        elif per_kind is not None and n > per_kind: idxs = sorted(rng.sample(idxs, per_kind))
         for i in idxs:
             modes = ["err", "short"] if kind == "write" else ["err"]
             for m in modes:
@@ -332,6 +334,15 @@ def uninit_cases(rng, n):
         cab = cabfmt.build_cab([(3 | (wb << 8), [(stream, total)])], [(b"x.bin", total, 0, 0, 0x5A21, 0x6C43, 0x20)])
         sc = scenario.Scn().file("in0.cab", cab); cab_ops(sc, 1, 4); out.append(Case("uninit:lzx-early-match", "cab", sc))
     for i in range(n):
+        # LZX, second frame: a match reaching beyond everything decoded so far, into window cells no frame has written (window >= 64 KiB, not yet wrapped)
+        wb = rng.choice([16, 17, 18]); total = 32768 + rng.choice([300, 2000])
+        for _ in range(20):
+            cuts = []; stream, _ = lzxenc.encode(rng, wb, total, early=2, match_p=0.9, cuts=cuts)
+            if len(stream) < 60000 and cuts: break
+        cut = cuts[0] if cuts else len(stream)
+        cab = cabfmt.build_cab([(3 | (wb << 8), [(stream[:cut], 32768), (stream[cut:], total - 32768)])], [(b"x.bin", total, 0, 0, 0x5A21, 0x6C43, 0x20)])
+        sc = scenario.Scn().file("in0.cab", cab); cab_ops(sc, 1, 4); out.append(Case("uninit:lzx-frame2-match", "cab", sc))
+    for i in range(n):
         b = BitsMSB()
         types = [rng.choice([0, 1, 2, 3, 4, 7, 15]) for _ in range(6)]
         if all(t < 4 for t in types[:5]): types[rng.randrange(5)] = rng.randrange(4, 16)
@@ -368,4 +379,74 @@ def cycle_cases(rng, n):
         for nm in (b"/f000.txt", b"/zzz-absent", b"/f040.txt", b"/", b"/f999"): sc.op("chm_find", "h0", nm.hex())
         sc.op("chm_close", "h0")
         out.append(Case("cycle:chm-%s" % ("pmgl" if i % 2 == 0 else "pmgi"), "chm", sc))
+    return out
+
+
+def targeted_cases(rng, n):
+    """inputs and call sequences aimed at particular paths that byte-level damage reaches only by luck:
+    every truncation point of a header with all optional fields; OAB blocks that disagree with the file header or the base file,
+    patch padding larger than a small input buffer; a cabinet header whose size field lies beyond the file, searched in salvage mode;
+    MSZIP folders read in repair mode with every read failing in turn"""
+    out = []
+    # (1) every prefix of a KWAJ / SZDD / OAB / OAB-patch / small cabinet header
+    for i in range(max(1, n // 3)):
+        comp = [0, 1, 2][i % 3]; plain = bytes(rng.choice(b"xyz \n") for _ in range(40))
+        payload = plain if comp == 0 else (bytes(b ^ 0xFF for b in plain) if comp == 1 else py_lzss(rng, 9, 2)[0])
+        f = kwajfmt.kwaj(comp, payload, 63, len(plain), b"ab", b"unk2!", b"NAME", b"EX", b"extra text, some of it")
+        hdr = len(f) - len(payload)
+        for k in range(0, hdr + 3):
+            sc = scenario.Scn().file("in0.kwj", f[:k]); fmt_ops("kwaj", sc); out.append(Case("trunc:kwaj", "kwaj", sc))
+    for kind in (0, 1):
+        enc, plain = py_lzss(rng, 12, 0 if kind == 0 else 2); f = kwajfmt.szdd(kind, len(plain), enc)
+        for k in range(0, 16):
+            sc = scenario.Scn().file("in0.sz", f[:k]); fmt_ops("szdd", sc); out.append(Case("trunc:szdd", "szdd", sc))
+    oab, plain = oabfmt.build_full(rng, [300, 0, 40], kinds=[1, 0, 0])
+    for k in list(range(0, 34)) + [len(oab) - 41, len(oab) - 1]:
+        sc = scenario.Scn().file("in0.oab", oab[:k]); fmt_ops("oab", sc); out.append(Case("trunc:oab", "oab", sc))
+    pt, base, plain = oabfmt.build_patch(rng, [(100, 300), (50, 20)])
+    for k in list(range(0, 46)) + [len(pt) - 30, len(pt) - 1]:
+        sc = scenario.Scn().file("in0.pat", pt[:k]).file("in0.base", base); fmt_ops("oabp", sc); out.append(Case("trunc:oabp", "oabp", sc))
+    c = gen.cab_single(rng, nfolders=1, methods=[("none",)]); cab = c.files["in0.cab"]
+    for k in range(0, min(len(cab), 110), 1 if n > 6 else 3):
+        sc = scenario.Scn().file("in0.cab", cab[:k]); cab_ops(sc, 1, 4); out.append(Case("trunc:cab", "cab", sc))
+    # (2) OAB patches whose blocks ask for more base data than the base file holds; full files whose later block is longer than what is left
+    for i in range(max(2, n // 2)):
+        pt, base, plain = oabfmt.build_patch(rng, [(rng.choice([100, 1000, 40000]), rng.choice([50, 500])) for _ in range(rng.randrange(1, 3))])
+        cut = rng.choice([0, 1, len(base) // 2, max(len(base) - 1, 0)])
+        sc = scenario.Scn().file("in0.pat", pt).file("in0.base", base[:cut]); sc.op("oab_new").op("oab_incr", "in0.pat", "in0.base", "out0").op("oab_incr", "in0.pat", "in0.base", "out1")
+        out.append(Case("hostile:oabp-short-base", "oabp", sc))
+        sizes = [rng.choice([10, 300]) for _ in range(rng.randrange(2, 4))]
+        oab, plain = oabfmt.build_full(rng, sizes, block_max=max(sizes) + rng.choice([0, 6]))
+        b = bytearray(oab); tgt = sum(sizes) - rng.randrange(1, sizes[-1] + 1)          # the last block no longer fits into the declared size
+        struct.pack_into("<I", b, 12, tgt)
+        sc = scenario.Scn().file("in0.oab", bytes(b)); fmt_ops("oab", sc); out.append(Case("hostile:oab-overlong-block", "oab", sc))
+    # (3) small input buffers with block padding larger than the buffer (full files and patches)
+    for i in range(max(2, n // 2)):
+        bufsz = rng.choice([16, 64, 1000, 4095])
+        padf = lambda ln: (bufsz * rng.choice([1, 3]) + rng.choice([1, 7, 900])) if rng.random() < 0.7 else 0
+        pt, base, plain = oabfmt.build_patch(rng, [(rng.choice([0, 100, 3000]), rng.choice([8, 500, 33000])) for _ in range(rng.randrange(1, 3))], pad_fn=padf)
+        sc = scenario.Scn().file("in0.pat", pt).file("in0.base", base).op("oab_new").op("oab_param", 0, bufsz).op("oab_incr", "in0.pat", "in0.base", "out0")
+        out.append(Case("gen:oabp-smallbuf-pad", "oabp", sc, True, plain))
+        oab, plain = oabfmt.build_full(rng, [rng.choice([8, 500, 33000]) for _ in range(rng.randrange(1, 3))], pad_fn=lambda i_, ln: padf(ln))
+        sc = scenario.Scn().file("in0.oab", oab).op("oab_new").op("oab_param", 0, bufsz).op("oab_decompress", "in0.oab", "out0")
+        out.append(Case("gen:oab-smallbuf-pad", "oab", sc, True, plain))
+    # (4) search() in salvage mode over a header whose cabinet-size field lies beyond the file (and whose files offset is tiny)
+    for i in range(max(2, n // 2)):
+        c = gen.cab_single(rng, nfolders=1, methods=[rng.choice([("none",), ("mszip",)])]); b = bytearray(c.files["in0.cab"])
+        struct.pack_into("<I", b, 8, rng.choice([0x7FFFFFFF, len(b) + 1, len(b) + 70000, 0xFFFFFFFF]))
+        if rng.random() < 0.7: struct.pack_into("<I", b, 16, rng.choice([0, 0, 1, 4, 36]))
+        junk = bytes(rng.randrange(256) for _ in range(rng.choice([0, 3, 700])))
+        sc = scenario.Scn().file("in0.cab", junk + bytes(b) + junk[:5]).op("cab_new").op("cab_param", 3, rng.choice([1, 1, 0])).op("cab_search", "c0", "in0.cab")
+        sc.op("cab_extract_all", "c0", "out", 4).op("cab_close", "c0")
+        out.append(Case("hostile:cab-search-size", "cab", sc))
+    # (5) MSZIP (and the other methods) with the repair / salvage parameters on, several blocks: every read fails in turn
+    for i in range(max(2, n // 2)):
+        meth = ("mszip",) if i % 2 == 0 else rng.choice([("lzx", 16), ("qtm", 15), ("none",)])
+        lens = [rng.choice([33000, 50000]), rng.choice([20000, 40000]), rng.choice([100, 33000])]
+        if meth[0] in ("mszip", "none"): fo = cabfmt.Folder(meth, cabfmt.random_members(rng, 3, lens=lens))
+        else: fo = cabfmt.Folder(meth, [cabfmt.Member(b"r%d.bin" % j, length=lens[j]) for j in range(3)])
+        cab = cabfmt.build_single([fo], rng, with_ck=True)
+        sc = scenario.Scn().file("in0.cab", cab).op("cab_new").op("cab_param", 1, 1 if i % 4 < 3 else 0).op("cab_param", 3, 1 if i % 4 == 1 else 0)
+        sc.op("cab_open", "c0", "in0.cab").op("cab_extract_all", "c0", "out", 2).op("cab_close", "c0")
+        out.append(Case("gen:cab-repair-params", "cab", sc, True, None, all_faults=True))
     return out
